@@ -103,7 +103,17 @@ struct Run {
 
 /// Run the CLI with `args` in `cwd`; stdout/stderr go to scratch files so that
 /// no output size can block the child.  30 s limit.
+/// A time-out is only believed when it repeats with a ten times longer limit
+/// (a saturated machine can delay a single spawn by tens of seconds).
 fn run_cli(args: &[String], cwd: &Path) -> Run {
+    let r = run_cli_once(args, cwd, 30);
+    if r.note.starts_with("timed out") {
+        return run_cli_once(args, cwd, 300);
+    }
+    r
+}
+
+fn run_cli_once(args: &[String], cwd: &Path, limit_s: u64) -> Run {
     EXECS.fetch_add(1, Ordering::Relaxed);
     let n = IO_SEQ.fetch_add(1, Ordering::Relaxed);
     let io = root().join("io");
@@ -132,10 +142,10 @@ fn run_cli(args: &[String], cwd: &Path) -> Run {
         match child.try_wait() {
             Ok(Some(st)) => break Some(st),
             Ok(None) => {
-                if t0.elapsed() > Duration::from_secs(30) {
+                if t0.elapsed() > Duration::from_secs(limit_s) {
                     let _ = child.kill();
                     let _ = child.wait();
-                    note = "timed out after 30 s".into();
+                    note = format!("timed out after {limit_s} s");
                     break None;
                 }
                 std::thread::sleep(Duration::from_micros(nap));
@@ -830,6 +840,64 @@ fn main() {
                 }
             }
             v
+        },
+    );
+
+    // ---- the load path applies to EVERY input of one invocation
+    #[derive(Clone, Debug, Hash, Serialize, Deserialize)]
+    struct MultiLp {
+        /// roots of the inputs, in order
+        roots: Vec<String>,
+        /// module layout in the load path: 1 = m.scss, 2 = _m.scss (own dir: absent)
+        lp: u8,
+        opt: String,
+        compressed: bool,
+        precision: usize,
+    }
+    let mut s4b: Vec<MultiLp> = Vec::new();
+    {
+        let kinds: Vec<&str> = ROOTS.iter().map(|(k, _)| *k).collect();
+        let mut k = 0usize;
+        for lp in 1..3u8 {
+            for opt in ["abs", "rel"] {
+                for a in &kinds {
+                    for b in &kinds {
+                        if quick && (a != b) && *a != "use" && *b != "use" {
+                            continue;
+                        }
+                        let f = all_fmts[(k * 7) % all_fmts.len()];
+                        k += 1;
+                        s4b.push(MultiLp { roots: vec![a.to_string(), b.to_string()], lp, opt: opt.into(), compressed: f.0, precision: f.1 });
+                    }
+                }
+                for a in kinds.iter().take(3) {
+                    let f = all_fmts[(k * 7) % all_fmts.len()];
+                    k += 1;
+                    s4b.push(MultiLp { roots: vec![a.to_string(), "use".into(), a.to_string()], lp, opt: opt.into(), compressed: f.0, precision: f.1 });
+                }
+            }
+        }
+    }
+    ck.run(
+        "load-path-multi",
+        "two and three inputs in ONE invocation whose module exists only in the --load-path directory (m.scss | _m.scss) x {absolute, relative} -I x root kinds: every input must see the load path",
+        s4b.into_iter(),
+        |c: &MultiLp| {
+            let tree = root().join("lay").join(tree_id(0, c.lp, false));
+            let cwd = tree.join("cwd");
+            let mut args = fmt_args(c.compressed, c.precision);
+            args.push("--load-path".into());
+            args.push(if c.opt == "abs" { tree.join("lp").display().to_string() } else { "../lp".into() });
+            let mut wants = Vec::new();
+            for r in &c.roots {
+                let name = format!("root-{r}.scss");
+                args.push(tree.join("in").join(&name).display().to_string());
+                let lc = LayoutCase { own: 0, lp: c.lp, cwd: false, root: r.clone(), opt: c.opt.clone(), input: "abs".into(), compressed: c.compressed, precision: c.precision };
+                wants.push(as_lib(layout_model(&lc, true)));
+            }
+            let run = run_cli(&args, &cwd);
+            let what = format!("(cwd {}) rsass {}", unroot(&cwd.display().to_string()), unroot(&args.join(" ")));
+            judge(&run, &wants, &what)
         },
     );
 
